@@ -234,6 +234,13 @@ SEEDS = [
     "a = 0\nb = 0\ns = 0\nwhile true:\n    a, b = 1 {1/2} 0, 1 {1/2} 0\n    s = s + a*b\nend\n",
     "x = 0\ny = 0\nwhile true:\n    x, y = x + 1 {1/2} x - 1, x + 1 {1/2} x - 1\nend\n",
     "a = 0\nb = 0\ns = 0\nwhile true:\n    a, b = Bernoulli(1/2), Bernoulli(1/2)\n    s = s + a*b\nend\n",
+    # finite non-integer value sets whose size equals span + 1, used in a comparison / a power
+    "h = 1/2\nx = 0\nc = 0\nwhile true:\n    x = DiscreteUniform(0, 2)\n    h = x + 1/2\n    if h > 1:\n        c = 1\n    else:\n        c = 0\n    end\nend\n",
+    "h = 0\ny = 0\nwhile true:\n    h = 0 {1/3} 1/2 {1/3} 2\n    y = y + h**3\nend\n",
+    # a branch that can never be taken holds a probabilistic choice
+    "c = 0\nx = 1\nwhile true:\n    c = Bernoulli(1/2)\n    if c == 2:\n        x = 2*x {1/3} 3*x\n    else:\n        x = x + c\n    end\nend\n",
+    "k = 0\nc = 0\nx = 1\nwhile true:\n    c = Bernoulli(1/2)\n    if k == 1:\n        x = 2*x {1/3} 3*x\n    else:\n        x = x + c\n    end\nend\n",
+    "c = 0\nx = 1\nwhile true:\n    c = Bernoulli(1/2)\n    if c == 0:\n        x = x + 1\n    elif c == 1:\n        x = x + 2\n    else:\n        x = 0 {1/4} 2*x\n    end\nend\n",
     # delayed constant chain (acyclic solver, zero-coefficient chains)
     "x = 0\ny = 0\nwhile true:\n    y = x\n    x = 1\nend\n",
     "x = 0\ny = 0\nz = 0\nwhile true:\n    z = y\n    y = x\n    x = x + 1\nend\n",
